@@ -240,3 +240,23 @@ package requestmanager
 //@   modifies inProgressRequestStatus.terminalError, rm.inProgressRequestStatuses[*], closedErr, closedProg, alloc
 //@   modifies reconciledloader.remotedLinkedItem.next, reconciledloader.remotedLinkedItem.remoteItem, reconciledloader.remoteQueue.head, reconciledloader.remoteQueue.tail, reconciledloader.remoteQueue.dataSize, allmaps("map[cid.Cid]struct{}")
 //@   callsite RequestManager.processResponses: assert $blks == prm.blks && $p == prm.p && $responses == prm.responses
+
+//@ -- ============================ C04 / C25: registering a request ============================
+//@ -- once the manager loop has accepted the registration message it WILL answer on the reply channel (unbuffered; its only
+//@ -- other way out is the manager's own shutdown). So NewRequest must take that reply unless the manager is shutting
+//@ -- down: leaving early - e.g. because the caller's context ended - would block the single manager loop for ever (every
+//@ -- other request hangs) and leave a registered request that nobody cancels and whose channels never report the cancel.
+//@ ghost nMsgAccepted int        -- messages the manager loop's queue accepted from this goroutine
+//@ ghost nReplyTaken int         -- registration replies taken
+//@ ghost doneSeen set[ref]       -- done channels NewRequest has observed closed
+//@ onsend recv:requestmanager.inProgressRequest(ch, v) in NewRequest: nReplyTaken := nReplyTaken + 1
+//@ onsend recv:struct{}(ch, v) in NewRequest: doneSeen := add(doneSeen, ch)
+//@ func RequestManager.send
+//@   assumed
+//@   modifies nMsgAccepted
+//@   ghost nMsgAccepted := old(nMsgAccepted) + ite(result == nil, 1, 0)
+//@ func RequestManager.NewRequest
+//@   lenient
+//@   safety off
+//@   modifies alloc, nMsgAccepted, nReplyTaken, doneSeen
+//@   ensures nMsgAccepted != old(nMsgAccepted) ==> nReplyTaken == old(nReplyTaken) + 1 || doneSeen[doneChan(rm.ctx)]
